@@ -92,6 +92,12 @@ def minimise(prop, doc, time_budget=60):
             if len(scn["history"]) > 1:
                 c = copy.deepcopy(scn)
                 c["history"].pop(i)
+                en = c.get("enum")
+                if en is not None:
+                    if i == en["step"]:
+                        c = None
+                    elif i < en["step"]:
+                        en["step"] -= 1
                 if attempt(c, plans):
                     changed = True
             i -= 1
